@@ -102,11 +102,26 @@ func (h *c25Hosts) Resolve() stringset.Set { return stringset.New(h.addrs...) }
 func (h *c25Hosts) Failed(addr string)     { h.failed = append(h.failed, h.pool.name[addr]) }
 
 func c25TagExec(t *verifh.T, p *c25Pool, c verifh.Case) {
+	// `op` records: one cluster client for the whole case (its host list changes from request to request)
+	seq := false
 	for _, op := range c.Ops {
-		if len(op) != 5 || op[0] != "one" || (op[1] != "do" && op[1] != "once") {
+		seq = seq || (len(op) > 0 && op[0] == "op")
+	}
+	shared := &c25Hosts{pool: p}
+	sharedClient := tagclient.NewClusterClient(shared, nil)
+	if seq {
+		t.Cfg()
+		defer t.End()
+	}
+	for _, op := range c.Ops {
+		if len(op) != 5 || (op[0] != "one" && op[0] != "op") || (op[1] != "do" && op[1] != "once") {
 			continue
 		}
 		hosts := &c25Hosts{pool: p}
+		if op[0] == "op" {
+			hosts = shared
+			hosts.addrs, hosts.failed = nil, nil
+		}
 		p.mu.Lock()
 		p.contacted = nil
 		p.behaviour = map[string]byte{}
@@ -130,6 +145,9 @@ func c25TagExec(t *verifh.T, p *c25Pool, c verifh.Case) {
 			continue
 		}
 		cc := tagclient.NewClusterClient(hosts, nil)
+		if op[0] == "op" {
+			cc = sharedClient
+		}
 		var err error
 		pan := verifh.Protect(func() {
 			switch op[2] {
@@ -162,8 +180,12 @@ func c25TagExec(t *verifh.T, p *c25Pool, c verifh.Case) {
 		p.mu.Lock()
 		contacted := append([]string(nil), p.contacted...)
 		p.mu.Unlock()
+		emit := t.One
+		if op[0] == "op" {
+			emit = t.Op
+		}
 		if pan != "" {
-			t.One(op[1:], "panic", verifh.List(contacted), "-")
+			emit(op[1:], "panic", verifh.List(contacted), "-")
 			t.PropFail("panic", verifh.Str(pan))
 			continue
 		}
@@ -179,7 +201,7 @@ func c25TagExec(t *verifh.T, p *c25Pool, c verifh.Case) {
 		}
 		failed := append([]string(nil), hosts.failed...)
 		sort.Strings(failed)
-		t.One(op[1:], res, verifh.List(contacted), verifh.List(failed))
+		emit(op[1:], res, verifh.List(contacted), verifh.List(failed))
 	}
 }
 
@@ -252,6 +274,40 @@ func TestVerif_C25TagClient(t *testing.T) {
 				c25TagExec(tr, pool, c25TagCase("do", m, first(k), outs))
 				tr.Count("all_methods", 1)
 			}
+		}
+	}
+	// request SEQUENCES through one client object: a host serves a request, then leaves the host list, or it and
+	// the sampled hosts start failing - every request must be judged against the list current at that moment
+	seqOp := func(method string, idx []int, outs string) []string {
+		c := c25TagCase("do", method, idx, outs)
+		return append([]string{"op"}, c.Ops[0][1:]...)
+	}
+	for i := 0; i < verifh.Scale(150, 6000); i++ {
+		var c verifh.Case
+		n := 1 + r.Intn(6)
+		cur := r.Perm(40)[:n]
+		for j := 0; j < 3+r.Intn(6); j++ {
+			switch r.Intn(4) {
+			case 0: // the membership changes completely
+				cur = r.Perm(40)[:1+r.Intn(6)]
+			case 1: // one host leaves (often the one that just answered: all were fine)
+				if len(cur) > 1 {
+					cur = cur[1:]
+				}
+			}
+			outs := r.Pick("o", "o", "n", "no", "nno", "on", "e")
+			c.Ops = append(c.Ops, seqOp(r.Pick("Get", "Has", "Origin", "List"), cur, outs))
+		}
+		c25TagExec(tr, pool, c)
+		tr.Count("sequence_cases", 1)
+	}
+	// the sharpest sequences: a single host answers, then the list is replaced by other hosts (all fine / all down)
+	for h := 0; h < 8; h++ {
+		for _, outs := range []string{"o", "n", "e"} {
+			others := []int{(h + 1) % 40, (h + 2) % 40, (h + 3) % 40, (h + 4) % 40}
+			c25TagExec(tr, pool, verifh.Case{Ops: [][]string{
+				seqOp("Get", []int{h}, "o"), seqOp("Get", others, outs), seqOp("Has", others[:2], outs), seqOp("Get", []int{h}, "o")}})
+			tr.Count("sequence_cases", 1)
 		}
 	}
 	methods := []string{"Get", "Has", "Put", "Origin", "PutAndReplicate", "Replicate", "List", "ListWithPagination", "ListRepository", "ListRepositoryWithPagination"}
